@@ -65,6 +65,11 @@ type loopInfo struct {
 	spec      *LoopSpec
 	havoc     map[string]bool
 	oldWrites map[string]bool // heaps in which the loop may write memory that existed before the loop
+	// oldTargets: for a heap in oldWrites whose only writes to pre-existing memory go through slices rooted in values
+	// defined before the loop (append / element stores on a loop-carried slice): those roots. oldUnknown: other writes.
+	oldTargets map[string][]ssa.Value
+	oldUnknown map[string]bool
+	visiting   map[*ssa.Phi]bool
 	havocAll  bool
 	preState  *State
 	state     *State
@@ -556,7 +561,7 @@ func (fv *FuncVC) findLoops() {
 			if b.Dominates(p) { // back edge p -> b
 				li := fv.loops[b]
 				if li == nil {
-					li = &loopInfo{head: b, body: map[*ssa.BasicBlock]bool{b: true}, havoc: map[string]bool{}, oldWrites: map[string]bool{}}
+					li = &loopInfo{head: b, body: map[*ssa.BasicBlock]bool{b: true}, havoc: map[string]bool{}, oldWrites: map[string]bool{}, oldTargets: map[string][]ssa.Value{}, oldUnknown: map[string]bool{}}
 					fv.loops[b] = li
 					fv.loopList = append(fv.loopList, li)
 				}
@@ -635,6 +640,13 @@ func (fv *FuncVC) scanLoopEffects(li *loopInfo) {
 					li.havoc[h] = true
 					if root, ok := addrRoot(x.Addr).(*ssa.Alloc); !ok || !li.body[root.Block()] {
 						li.oldWrites[h] = true
+						if r := li.sliceRoot(addrRoot(x.Addr), 0); r != nil {
+							if !isNilConst(r) {
+								li.oldTargets[h] = append(li.oldTargets[h], r)
+							}
+						} else {
+							li.oldUnknown[h] = true
+						}
 					}
 				} else {
 					li.havocAll = true
@@ -644,6 +656,7 @@ func (fv *FuncVC) scanLoopEffects(li *loopInfo) {
 					has, val, ln := e.mapHeaps(m)
 					li.havoc[has], li.havoc[val], li.havoc[ln] = true, true, true
 					li.oldWrites[has], li.oldWrites[val], li.oldWrites[ln] = true, true, true
+					li.oldUnknown[has], li.oldUnknown[val], li.oldUnknown[ln] = true, true, true
 				}
 			case *ssa.Alloc, *ssa.MakeSlice, *ssa.MakeMap, *ssa.MakeClosure:
 				li.havoc["alloc"] = true
@@ -667,8 +680,16 @@ func (fv *FuncVC) scanLoopEffects(li *loopInfo) {
 					switch b.Name() {
 					case "append", "copy":
 						if sl, ok := com.Args[0].Type().Underlying().(*types.Slice); ok {
-							li.havoc[e.elemHeap(sl.Elem())] = true
-							li.oldWrites[e.elemHeap(sl.Elem())] = true
+							h := e.elemHeap(sl.Elem())
+							li.havoc[h] = true
+							li.oldWrites[h] = true
+							if r := li.sliceRoot(com.Args[0], 0); r != nil {
+								if !isNilConst(r) {
+									li.oldTargets[h] = append(li.oldTargets[h], r)
+								}
+							} else {
+								li.oldUnknown[h] = true
+							}
 						}
 						li.havoc["alloc"] = true
 					case "delete":
@@ -676,6 +697,7 @@ func (fv *FuncVC) scanLoopEffects(li *loopInfo) {
 							has, val, ln := e.mapHeaps(m)
 							li.havoc[has], li.havoc[val], li.havoc[ln] = true, true, true
 							li.oldWrites[has], li.oldWrites[val], li.oldWrites[ln] = true, true, true
+							li.oldUnknown[has], li.oldUnknown[val], li.oldUnknown[ln] = true, true, true
 						}
 					}
 					continue
@@ -694,6 +716,7 @@ func (fv *FuncVC) scanLoopEffects(li *loopInfo) {
 							li.havoc[h] = true
 							if len(cc.Modifies) > 0 {
 								li.oldWrites[h] = true
+								li.oldUnknown[h] = true
 							}
 						}
 						li.havoc["alloc"] = true
@@ -706,12 +729,107 @@ func (fv *FuncVC) scanLoopEffects(li *loopInfo) {
 					if m, ok := r.X.Type().Underlying().(*types.Map); ok {
 						li.havoc[fv.iterHeap(m)] = true
 						li.oldWrites[fv.iterHeap(m)] = true
+						li.oldUnknown[fv.iterHeap(m)] = true
 					}
 				}
 			}
 		}
 	}
 }
+
+func isNilConst(v ssa.Value) bool {
+	c, ok := v.(*ssa.Const)
+	return ok && c.Value == nil
+}
+
+// sliceRoot: the slice value, defined before the loop, whose backing array a slice value used in the loop may share
+// (through reslicing, appends in place and the loop's own phis); nil when that cannot be told
+func (li *loopInfo) sliceRoot(v ssa.Value, depth int) ssa.Value {
+	if depth > 6 {
+		return nil
+	}
+	if _, ok := v.Type().Underlying().(*types.Slice); !ok {
+		return nil
+	}
+	switch x := v.(type) {
+	case *ssa.Const, *ssa.Parameter, *ssa.FreeVar:
+		return v
+	case *ssa.Phi:
+		if li.visiting == nil {
+			li.visiting = map[*ssa.Phi]bool{}
+		}
+		if li.visiting[x] {
+			// back at a phi under analysis: contributes no new root
+			return ssa.NewConst(nil, v.Type())
+		}
+		li.visiting[x] = true
+		defer delete(li.visiting, x)
+		if x.Block() == li.head {
+			var root ssa.Value
+			for i, p := range li.head.Preds {
+				if li.body[p] {
+					// back edge: the value must come from the same root (or from memory allocated in the loop)
+					br := li.sliceRoot(x.Edges[i], depth+1)
+					if br == nil {
+						return nil
+					}
+					continue
+				}
+				r := x.Edges[i]
+				if ri, ok := r.(ssa.Instruction); ok && li.body[ri.Block()] {
+					return nil
+				}
+				if root != nil && root != r {
+					return nil
+				}
+				root = r
+			}
+			return root
+		}
+		if !li.body[x.Block()] {
+			return v
+		}
+		// a join inside the loop: all edges must agree
+		var root ssa.Value
+		for _, ev := range x.Edges {
+			r := li.sliceRoot(ev, depth+1)
+			if r == nil || (root != nil && root != r && !isFreshInLoop(li, r)) {
+				return nil
+			}
+			if !isFreshInLoop(li, r) {
+				root = r
+			}
+		}
+		if root == nil {
+			return ssa.NewConst(nil, v.Type())
+		}
+		return root
+	case *ssa.Slice:
+		if !li.body[x.Block()] {
+			return v
+		}
+		return li.sliceRoot(x.X, depth+1)
+	case *ssa.MakeSlice:
+		if li.body[x.Block()] {
+			return ssa.NewConst(nil, v.Type()) // fresh in the loop: no old array
+		}
+		return v
+	case *ssa.Call:
+		if !li.body[x.Block()] {
+			return v
+		}
+		if b, ok := x.Call.Value.(*ssa.Builtin); ok && b.Name() == "append" {
+			return li.sliceRoot(x.Call.Args[0], depth+1)
+		}
+		return nil
+	}
+	if ins, ok := v.(ssa.Instruction); ok && !li.body[ins.Block()] {
+		return v
+	}
+	return nil
+}
+
+func isFreshInLoop(li *loopInfo, v ssa.Value) bool { return isNilConst(v) }
 
 // addrRoot: the value an address is derived from through field and element selections
 func addrRoot(v ssa.Value) ssa.Value {
